@@ -139,3 +139,12 @@ chk("C14", "exploration",
     "oracle: every stream arrives complete and in per-stream order before the terminal condition, input unchanged, nil for exit 0, error for exit 3.",
     "Kernel pipe semantics trusted; the schedule axis is one owned choice plus a pause, not every interleaving of the copy goroutines.",
     "DESIGN.md 5 C14")
+
+chk("C08", "fault_enumeration",
+    "exhaustive crash-point / torn-write enumeration of the real cache write path through an os shim, exhaustive single-byte damage, bounded-exhaustive restart histories",
+    "lib/sstls is built with its os import rewritten (overlay) to a logging/crash-injecting shim. (a) every crash point of the real GetCertificate write path: before each mutating call and after every byte count 0..n (~815) of "
+    "WriteFile, each followed by a recovery run on the same directory and a real in-memory TLS handshake; (b) every byte offset of a complete cache file x 6 replacements (~4800), by region; (c) every history of <=4 (thorough 6) "
+    "operations over {start, start without cache, delete cache, torn write at 3 lengths} against a key-identity model; (d) missing-directory nesting 0..4 x umask {0, 022, 077} with modes checked after every step. "
+    "Oracle: recovery fails or serves the key that was being saved (never another, never an unusable pair), an existing file is never rewritten, file 0600 / directories 0700 at every point.",
+    "A crash stops the process at a call boundary or inside WriteFile after k bytes, with what was written durable; only lib/sstls's own os calls are intercepted (txtar reads through the real os).",
+    "DESIGN.md 5 C08")
